@@ -80,20 +80,34 @@ def run(tier, v, wd, replay=None):
     if not os.path.exists(tracefile) or os.path.getsize(tracefile) == 0:
         raise vlib.Infra("the walks recorded no trace")
     nlines = sum(1 for _ in open(tracefile))
+    rejected = None
     try:
         r = vlib.tlc(wd, "TraceUdpTaskPool", "TraceUdpTaskPool.cfg", workers=1, timeout=3000)
     except vlib.Infra as e:
-        if "TraceAccepted" in str(e) or "ostcondition" in str(e):
+        if v.violations:
+            # the walks themselves already showed the real pool breaking the property: a trace the specification cannot
+            # explain is then expected; it is recorded as drift, the verdict comes from the real executions above
+            v.drift.append("trace validation: the recorded executions are not accepted by UdpTaskPool.tla")
+            rejected = True
+            r = None
+        elif "TraceAccepted" in str(e) or "ostcondition" in str(e):
             raise vlib.Infra("trace validation: the recorded executions of the real task pool are not accepted by UdpTaskPool.tla "
                              "(the specification no longer describes the code's steps; no verdict):\n%s" % str(e)[-1500:])
-        raise
-    v.add_tlc(r)
-    if r.violated:
+        else:
+            raise
+    if r is not None:
+        v.add_tlc(r)
+    if r is None:
+        pass
+    elif r.violated:
         v.violation("taskpool-trace:" + r.violated,
                     "a recorded execution of the real UdpTaskPool (random gated walk) drives UdpTaskPool.tla into a state violating %s:\n%s" % (r.violated, "\n".join(r.trace[:40])),
                     {"invariant": r.violated, "trace": r.trace[:200]})
     elif "Postcondition" in r.out and "is false" in r.out:
-        raise vlib.Infra("trace validation: recorded executions not accepted by UdpTaskPool.tla (no verdict):\n%s" % r.out[-1500:])
+        if v.violations:
+            v.drift.append("trace validation: the recorded executions are not accepted by UdpTaskPool.tla")
+        else:
+            raise vlib.Infra("trace validation: recorded executions not accepted by UdpTaskPool.tla (no verdict):\n%s" % r.out[-1500:])
     v.coverage["trace_lines_validated"] = nlines
     # second half of the property: the endpoint pool (stable endpoint per source, single dial, failure cache, retirement,
     # exactly-once close, kernel flow entries with adoption) - UdpEndpointPool.tla replayed on the real pool in virtual time
